@@ -1,4 +1,4 @@
-"""C12 -- closing and reopening a project loses nothing (writer/reader agreement R12.1-R12.10)."""
+"""C12 -- closing and reopening a project loses nothing (writer/reader agreement R12.1-R12.11)."""
 from __future__ import annotations
 
 import ast
@@ -131,6 +131,9 @@ def _root_attr(e: ast.AST, obj: str) -> Set[str]:
 def check(ctx, res) -> None:
     _check_main(ctx, res)
     _save_is_unconditional(ctx, res)
+    from .c18 import history_loader_rule
+
+    history_loader_rule(ctx, res, "R12.11")
 
 
 def _check_main(ctx, res) -> None:
